@@ -21,7 +21,7 @@ SPEC_OPS = None
 
 TIERS = {
     #            symtab hist len, symtab invariant len, random programs, TLC bound (bytes of code), VM step limit
-    "quick":    dict(symlen=6, syminv=8, nrandom=1000, maxtlc=2500, limit=6000, scaled_max=7000, batch=45000),
+    "quick":    dict(symlen=6, syminv=8, nrandom=800, maxtlc=2500, limit=6000, scaled_max=7000, batch=45000),
     "thorough": dict(symlen=7, syminv=14, nrandom=14000, maxtlc=30000, limit=30000, scaled_max=10 ** 9, batch=60000),
 }
 
@@ -75,7 +75,7 @@ def symtab_invariants(chk, cfg):
 
 
 def symtab_cases(chk, cfg):
-    res = common.run_tlc("Symtab", "Symtab.cfg", defines={"MAXOPS": cfg["symlen"], "HIST": "TRUE"},
+    res = common.run_tlc("Symtab", "SymtabHist.cfg", defines={"MAXOPS": cfg["symlen"]},
                          workers=6, timeout=1500, name="Symtab-hist", java_opts=JAVA)
     if not res.cases:
         raise HarnessError("Symtab.tla produced no histories")
@@ -95,35 +95,58 @@ def sym_class(c):
     return "symtab/depth=%d/localdefs=%d" % (maxd, nloc)
 
 
+SYMBATCH = 200
+
+
 def symtab_work(chk, cfg):
-    """TLC + replay (no access to chk: runs in a helper thread)."""
+    """TLC + replay (no access to chk: runs in a helper thread).  Returns the
+    TLC result and one (case, stage, ok, diff, status) per history and stage."""
     res = symtab_cases(chk, cfg)
-    cases = []
-    for i, c in enumerate(res.cases):
-        cases.append(dict(c, id="sym-%d" % i, stage="c17sym", **{"class": sym_class(c)}))
-    for i, c in enumerate(res.cases):
-        cases.append(dict(c, id="ren-%d" % i, stage="c17render", **{"class": "render/" + sym_class(c)}))
-    results = common.replay(cases, deadline="20s", name="c17sym")
-    return res, cases, results
+    t0 = time.time()
+    hs = res.cases
+    batches = [{"id": "symb-%d" % i, "stage": "c17symbatch", "items": hs[i:i + SYMBATCH]}
+               for i in range(0, len(hs), SYMBATCH)]
+    results = common.replay(batches, deadline="120s", name="c17sym")
+    out = []
+    for b in batches:
+        r = results[b["id"]]
+        if r["ok"] and len(r["obs"]["results"]) == len(b["items"]):
+            for h, x in zip(b["items"], r["obs"]["results"]):
+                out.append((h, "c17sym", x["sym_ok"], x["sym_diff"], "compiled"))
+                out.append((h, "c17render", x["ren_ok"], x["ren_diff"], x["ren_status"]))
+            continue
+        if (r.get("diff") or "").startswith("harness:"):
+            raise HarnessError("c17symbatch: " + r["diff"])
+        # a crash inside the batch: attribute it by replaying the items one by one
+        singles = []
+        for j, h in enumerate(b["items"]):
+            singles.append(dict(h, id="%s-%d-s" % (b["id"], j), stage="c17sym"))
+            singles.append(dict(h, id="%s-%d-r" % (b["id"], j), stage="c17render"))
+        rs = common.replay(singles, deadline="20s", name="c17sym1")
+        for c in singles:
+            x = rs[c["id"]]
+            h = {k: v for k, v in c.items() if k not in ("id", "stage")}
+            out.append((h, c["stage"], x["ok"], x.get("diff", ""), (x.get("obs") or {}).get("status", "compiled")))
+    common.log("C17: Symtab TLC %.1fs, %d histories replayed (API + rendered) in %.1fs" % (res.wall, len(hs), time.time() - t0))
+    return res, out
 
 
-def symtab_account(chk, res, cases, results):
+def symtab_account(chk, res, out):
     nren = 0
-    for c in cases:
-        r = results[c["id"]]
-        if r.get("diff", "").startswith("harness:"):
-            raise HarnessError("c17sym/c17render: " + r["diff"])
-        if c["stage"] == "c17render":
-            st = (r.get("obs") or {}).get("status")
-            if r["ok"] and st != "compiled":
+    for h, stage, ok, diff, status in out:
+        if (diff or "").startswith("harness:"):
+            raise HarnessError(stage + ": " + diff)
+        if stage == "c17render":
+            if ok and status != "compiled":
                 continue        # not an Evy program (pop of the global scope) or rejected by the parser
             nren += 1
         chk.evaluations += 1
         chk.traces += 1
-        if any(o["scope"] == "LOCAL" for o in c["ops"]):
-            chk.nontrivial.add(c["stage"] + ":" + json.dumps(c["ops"]))
-        if not r["ok"]:
-            chk.mismatch(c["class"], r.get("diff", ""), {"case": c, "result": r})
+        if any(o["scope"] == "LOCAL" for o in h["ops"]):
+            chk.nontrivial.add(stage + ":" + json.dumps(h["ops"]))
+        if not ok:
+            cls = ("render/" if stage == "c17render" else "") + sym_class(h)
+            chk.mismatch(cls, diff, {"case": dict(h, id="sym-replay", stage=stage, **{"class": cls})})
     mid = res.cases[len(res.cases) // 2]
     chk.sample({"symtab_history": [(o["op"] + (" " + o["n"] if o["n"] else "") +
                                     (" -> %s %d" % (o["scope"], o["index"]) if o["op"] in ("def", "res") and o["found"] else ""))
@@ -231,8 +254,10 @@ def programs_part(chk, cfg, tier):
     progs = corpus(cfg, tier)
     byid = {p[0]: p for p in progs}
     cases = [{"id": pid, "stage": "c17compile", "src": src, "maxtlc": cfg["maxtlc"], "limit": cfg["limit"]}
-             for pid, src, _, _ in progs]
+             for pid, src, _, _ in sorted(progs, key=lambda p: -len(p[1]))]      # the huge ones first
+    t0 = time.time()
     comp = common.replay(cases, deadline="240s", name="c17compile")
+    common.log("C17: %d sources compiled in %.1fs" % (len(cases), time.time() - t0))
     stats = {"sources": len(progs), "parse_error": 0, "compile_error": 0, "compiled": 0, "tlc": 0, "fallback": 0}
     tlc_items = {}     # codesum -> (ninstr, line)
     users = {}         # codesum -> [pid]
@@ -281,7 +306,9 @@ def programs_part(chk, cfg, tier):
 
     def job(i, b):
         return lambda: tlc_batch(str(i), [x[2] for x in b])
+    t0 = time.time()
     outs = _par([job(i, b) for i, b in enumerate(batches)], 4)
+    common.log("C17: %d TLC batches (%d distinct codes) in %.1fs" % (len(batches), len(tlc_items), time.time() - t0))
     verdict_of, allow_of = {}, {}
     for b, (res, verdicts, allow) in zip(batches, outs):
         chk.add_tlc(res, "VMStack batch of %d codes" % len(b))
@@ -316,7 +343,9 @@ def programs_part(chk, cfg, tier):
                           "verdict": v})
         run_cases.append({"id": pid, "stage": "c17run", "src": src, "limit": cfg["limit"], "verdict": v,
                           "allow": allow_of[key], "class": cls})
+    t0 = time.time()
     runres = common.replay(run_cases, deadline="60s", name="c17run")
+    common.log("C17: %d VM runs checked in %.1fs" % (len(run_cases), time.time() - t0))
     ran = {"ran_ok": 0, "run_err": 0, "cut": 0, "panic": 0, "steps": 0}
     for c in run_cases:
         r = runres[c["id"]]
@@ -398,10 +427,10 @@ def run(chk):
         f_hist = ex.submit(symtab_work, chk, cfg)
         programs_part(chk, cfg, tier)
         inv = f_inv.result()
-        hist, scases, sresults = f_hist.result()
+        hist, sout = f_hist.result()
         chk.add_tlc(inv, "Symtab invariants, all histories of <= %d operations (state based)" % cfg["syminv"])
         chk.add_tlc(hist, "Symtab histories of %d operations with results" % cfg["symlen"])
-        symtab_account(chk, hist, scases, sresults)
+        symtab_account(chk, hist, sout)
     chk.rule = ("Symtab: every history of %d push/pop/define/resolve operations over 3 names (names introduced in order), each "
                 "replayed on the SymbolTable API and, where it is an Evy program, through the real compiler; VMStack: every "
                 "source of the corpus (fixed list of all statement/expression forms, seeded random programs nested to depth 3, "
